@@ -12,6 +12,7 @@ mod disthdr;
 mod edges;
 mod elixir;
 mod epmd;
+mod nodeconn;
 mod etf;
 mod frag;
 mod handshake;
@@ -61,6 +62,7 @@ fn main() {
         "serde-rt" => serde_rt::run(rest),
         "elixir-run" => elixir::run(rest),
         "epmd-run" => epmd::run(rest),
+        "nodeconn-run" => nodeconn::run(rest),
         other => {
             eprintln!("unknown subcommand {other}");
             2
